@@ -121,7 +121,7 @@ func main() {
 		if n == 0 {
 			n = 260
 			if thorough {
-				n = 6000
+				n = 1200
 			}
 		}
 		partB(g, n)
